@@ -113,4 +113,54 @@ def run(ctx):
             r.start("a", mp.stream_for(g, x, redraws=x % 3, k=x % 4))
             r.serialize("a")
             traces.append(r.json())
+    # random_scalar called directly (the group API start() uses): the scalar as a function of the bytes served.
+    # Toy groups: every residue with several quotients; shipped and zoo groups: structured draws (multiples of the order
+    # and their neighbours, runs of ones, single bits) and a volume of pseudo-random draws, so that a hand-written
+    # reduction that is wrong on a small fraction of its inputs is met (tables of 500 draws per event)
+    import random as _random
+    rnd = _random.Random(ctx.seed * 7919 + 11)
+    nrs = 0
+    for g in (["i11", "i23", "i263", "ed37", "ed53", "ed109"] if thorough else ["i23", "ed37", "ed53"]):
+        uni.group(g)
+        q = toy_order(g)
+        tr = Trace("random-scalar/%s" % g, uni)
+        if g.startswith("ed"):
+            vals = [k * q + r for r in range(q) for k in (0, 1, 2, 2 ** 252, (2 ** 512 - 1) // q - 1)] + \
+                   [2 ** 512 - 1 - j for j in range(2 * q)] + [2 ** k for k in range(0, 512, 9)] + [rnd.getrandbits(512) for _ in range(200)]
+            streams = [(v % 2 ** 512).to_bytes(64, "big") for v in vals]
+            for k in range(0, len(streams), 400):
+                tr.raw(pure.ev_rs_table(uni, g, streams[k:k + 400]))
+            for st in streams[:3 * q:q // 2 + 1]:
+                tr.raw(pure.ev_rs(uni, g, st))
+        else:
+            nb = (q.bit_length() + 7) // 8
+            streams = [r.to_bytes(nb, "big") for r in range(256 ** nb if nb == 1 else 4096)]
+            tr.raw(pure.ev_rs_table(uni, g, streams))
+            for r in (0, q - 1, q, 255):
+                tr.raw(pure.ev_rs(uni, g, r.to_bytes(nb, "big") + bytes([3]) * nb))
+        nrs += len(streams)
+        traces.append(tr.to_json())
+    big = [("Ed25519", 24000 if not thorough else 400000), ("I1024", 600), ("I2048", 300), ("I3072", 300)] + \
+          [(z, 300) for z in (zl if thorough else zl[:4])]
+    for g, nrand in big:
+        G = uni.group(g)
+        q = G.order()
+        if g == "Ed25519":
+            nb = 64
+            vals = [k * q + r for k in (0, 1, 2, 15, 16, 17, 2 ** 252, 2 ** 259 - 1, 2 ** 512 // q - 1, 2 ** 512 // q) for r in (-2, -1, 0, 1, 2)]
+            vals += [2 ** k - 1 for k in range(1, 513, 7)] + [2 ** k for k in range(0, 512, 5)] + [(2 ** 512 - 1) ^ (2 ** k) for k in range(0, 512, 11)]
+            vals += [(j << 252) + r for j in (1, 2, 255, 2 ** 260 - 1) for r in (0, 1, q - 1, q, 2 ** 252 - 1)]
+        else:
+            nb = (q.bit_length() + 7) // 8
+            top = 1 << q.bit_length()
+            vals = [q - 2, q - 1, q, q + 1, 0, 1, top - 1, top, 256 ** nb - 1, q // 2, q ^ 1] + [2 ** k for k in range(0, 8 * nb, 13)]
+        streams = [(v % 256 ** nb).to_bytes(nb, "big") for v in vals if v >= 0] + [rnd.getrandbits(8 * nb).to_bytes(nb, "big") for _ in range(nrand)]
+        nrs += len(streams)
+        per = max(500, -(-len(streams) // 16))
+        for k in range(0, len(streams), per):
+            tr = Trace("random-scalar/%s/%d" % (g, k), uni)
+            for j in range(k, min(k + per, len(streams)), 500):
+                tr.raw(pure.ev_rs_table(uni, g, streams[j:min(j + 500, k + per)]))
+            traces.append(tr.to_json())
+    ctx.cov["random_scalar_draws"] = nrs
     ctx.validate(traces, uni, what="sampler/entropy")
